@@ -13,7 +13,7 @@ from ..runner import Sub
 ID = 'C12'
 TECHNIQUE = 'PBT + per-cluster arg-max validity predicate + independent rational score model'
 LEVEL_TEXT = 'Exploration: One member per cluster, arg-max of smooth_ranking (exact), score model on well-conditioned clusters, hull and corner variants. Finds counter-examples (shrunk to a replay file); never proves absence.'
-RULE = ('Cases = (valid curve n >= 5; interior knee subset of 2..12 knees incl. adjacent indices and knees on '
+RULE = ('Cases = (valid curve n >= 4; interior knee subset of 2..12 knees incl. adjacent indices and knees on '
         'plateaus; linkage x threshold x ranking mode in {left, linear, right, hull} + corner variant).  Oracle: '
         'output strictly increasing subset of the knees; non-hull: exactly one member of every cluster (clusters '
         'recomputed with the linkage, which C11 checks) and in every multi-member cluster the chosen member '
@@ -32,7 +32,7 @@ MODES = ['left', 'linear', 'right', 'hull']
 
 @st.composite
 def cases(draw, tier):
-    c = draw(S.curves(5, 40 if tier == 'quick' else 200,
+    c = draw(S.curves(4, 40 if tier == 'quick' else 200,
                       families=['mono_dec', 'mono_dec', 'convex', 'noise', 'plateau', 'quant', 'steps', 'pwl_dyadic',
                                 'pwl_rational', 'trace', 'concave', 'repo'],
                       big_n=120 if tier == 'quick' else 400))
